@@ -29,3 +29,74 @@ Theorem C09_no_response_no_change : forall apps, update_from_omaha apps [] = app
 Proof. exact update_from_omaha_nil. Qed.
 
 Print Assumptions C09_merge_fieldwise.
+
+(* ---- restart: what is written for an app is what App::load reads back into the fields the embedder left unset ---- *)
+Require Import Verif.Model.Json Verif.Proofs.C09Restart.
+
+(* the value written for an app (persist_data) is the printed form of its cohort and date ... *)
+Theorem C09_what_is_written : forall a, persisted_json a = print_json (persisted_value (a_cohort a) (a_uc a)).
+Proof. exact persisted_json_value. Qed.
+(* ... and reading it back gives exactly those, for every cohort of Rust strings and every u32 date *)
+Theorem C09_stored_value_reads_back :
+  forall c u, persistable c u = true -> decode_persisted (print_json (persisted_value c u)) = Some (c, u).
+Proof. exact decode_persisted_roundtrip. Qed.
+Theorem C09_restart_fills_unset_fields :
+  forall s a c u, sm_get s (a_id a) = Some (VStr (print_json (persisted_value c u))) -> persistable c u = true ->
+    app_load s a = {| a_id := a_id a; a_ver := a_ver a; a_fp := a_fp a;
+                      a_cohort := {| c_id := orelse (c_id (a_cohort a)) (c_id c);
+                                     c_hint := orelse (c_hint (a_cohort a)) (c_hint c);
+                                     c_name := orelse (c_name (a_cohort a)) (c_name c) |};
+                      a_uc := match a_uc a with None => u | Some d => Some d end;
+                      a_extra := a_extra a |}.
+Proof. exact app_load_restores. Qed.
+Theorem C09_restart_nothing_stored : forall s a, sm_get s (a_id a) = None -> app_load s a = a.
+Proof. exact app_load_nothing_stored. Qed.
+
+Print Assumptions C09_restart_fills_unset_fields.
+
+(* ---- the monitor (Model/Monitors.v step9) accepts every trace of the model ----
+   step9 keeps the app set as it must currently be: what the machine was built with (init9: app_load over the given
+   apps, characterised above), changed only by update_from_omaha (characterised above) with the result of a successful
+   check - at the moment the result is announced - and with the document of a successful ping - at the moment it
+   arrives; failed checks, failed pings and plan errors change nothing.  Against this it demands:
+     - every request (update check, retry, event report, ping) carries for each of its apps the current cohort of an
+       app of the set with that id, and, where it pings, the current date as both ping dates;
+     - every next-time and check-allowed question shows the policy exactly the current app set;
+     - right after a check's result, and after a successful ping (once its new last-contact time has been announced),
+       every app is written under its id with exactly its current persisted form, in app-set order, followed by a
+       commit - before any other request, event or policy question. *)
+Require Import Verif.Model.Monitors Verif.Proofs.Monitor Verif.Proofs.C09Proof.
+
+Theorem C09_monitor_accepts_every_model_trace :
+  forall ep cfg url cup apps e, e_trace e = [] ->
+    accepts step9 (init9 cup apps (e_store e)) (run_case ep cfg url cup apps e) = true.
+Proof. exact model_accepted_c09. Qed.
+
+Section Examples.
+  Let a0 : app := {| a_id := s2b "a"; a_ver := (1, 0, 0, 0)%N; a_fp := None; a_cohort := {| c_id := Some (s2b "c1"); c_hint := None; c_name := None |};
+                     a_uc := Some 5%N; a_extra := [] |}.
+  Let wa (c : cohort) (d : option N) : wapp := {| wa_id := s2b "a"; wa_cohort := c; wa_uc := None; wa_ping := Some (d, d); wa_events := [] |}.
+  Let w (c : cohort) (d : option N) : wire :=
+    {| w_uri := []; w_headers := []; w_body := []; w_sum := {| ws_source := ScheduledTask; ws_session := None; ws_request := None; ws_apps := [wa c d] |} |}.
+  Let q0 := {| cup9 := false; in9 := false; apps9 := [a0]; todo9 := [] |}.
+  Let c2 := {| c_id := Some (s2b "c2"); c_hint := None; c_name := None |}.
+  Let rs := [{| ar_id := s2b "a"; ar_cohort := c2; ar_uc := Some 9%N; ar_result := ANoUpdate |}].
+  Let a1 : app := {| a_id := s2b "a"; a_ver := (1, 0, 0, 0)%N; a_fp := None; a_cohort := c2; a_uc := Some 9%N; a_extra := [] |}.
+  Let chk := [AEvent (EvState (CheckingForUpdates ScheduledTask)); AHttp (w (a_cohort a0) (Some 5%N)) (HErr TTransport)].
+  Example C09_monitor_accepts :
+    accepts step9 q0 (chk ++ [AEvent (EvResult (inr rs)); AStore (SSetStr (s2b "a") (persisted_json a1)) true; AStore SCommit true;
+                              AEvent (EvState (CheckingForUpdates ScheduledTask)); AHttp (w c2 (Some 9%N)) (HErr TTransport)]) = true.
+  Proof. vm_compute. reflexivity. Qed.
+  (* a request with a stale cohort; with a stale date; the new values not stored; stored with the old values; not committed before going on *)
+  Example C09_monitor_rejects :
+    accepts step9 q0 (chk ++ [AEvent (EvResult (inr rs)); AStore (SSetStr (s2b "a") (persisted_json a1)) true; AStore SCommit true;
+                              AEvent (EvState (CheckingForUpdates ScheduledTask)); AHttp (w (a_cohort a0) (Some 9%N)) (HErr TTransport)]) = false
+    /\ accepts step9 q0 (chk ++ [AEvent (EvResult (inr rs)); AStore (SSetStr (s2b "a") (persisted_json a1)) true; AStore SCommit true;
+                              AEvent (EvState (CheckingForUpdates ScheduledTask)); AHttp (w c2 (Some 5%N)) (HErr TTransport)]) = false
+    /\ accepts step9 q0 (chk ++ [AEvent (EvResult (inr rs)); AStore SCommit true]) = false
+    /\ accepts step9 q0 (chk ++ [AEvent (EvResult (inr rs)); AStore (SSetStr (s2b "a") (persisted_json a0)) true]) = false
+    /\ accepts step9 q0 (chk ++ [AEvent (EvResult (inr rs)); AStore (SSetStr (s2b "a") (persisted_json a1)) true; AEvent (EvState Idle)]) = false.
+  Proof. vm_compute. repeat split; reflexivity. Qed.
+End Examples.
+
+Print Assumptions C09_monitor_accepts_every_model_trace.
